@@ -848,6 +848,10 @@ def scenarios(pid, tier):
         for ct in (["h2pk"] if quick else ["h2pk", "h2alpn"]):
             out.append(S(ct, ["req:a:w", "req:a:v", "req:a"], max_connections=1, cancels=1, styles=["scope", "native"],
                          h2script={"frag": 2}, early=False))
+        # an upload parked on an exhausted window whose response HEADERS arrive early, credit later: the stream still runs to completion
+        for ct in (["h2pk"] if quick else ["h2pk", "h2alpn"]):
+            out.append(S(ct, ["req:a:w", "up9:a", "req:a"], max_connections=1, h2cfg={"window_policy": "manual", "initial_window": 4},
+                         h2script={"wu": [["stream", 70000]], "wu_budget": 2, "early_hdr": True, "frag": 1}, early=False, horizon=300))
         # a streamed upload (two chunks) is reset by the server between its chunks, the reset being read on behalf of it by another stream's task
         for ct in (["h2pk"] if quick else ["h2pk", "h2alpn"]):
             out.append(S(ct, ["req:a:w", "ipost:a", "req:a"], max_connections=1, h2script={"rst": 1, "frag": 1}, early=False))
